@@ -106,3 +106,37 @@ fn c13_valve_player_count() {
     let r = vu::server_players(&addr, None, &gamedig::protocols::valve::Engine::Source(None), 17);
     core::mem::forget(r);
 }
+
+/// Unreal 2: the player count announced in the server-info reply (any u32)
+/// never sizes the player / bot vectors beyond the limit (whole query on the
+/// net model: info reply, then silence for the players request).
+#[cfg(kani)]
+#[kani::proof]
+#[kani::unwind(20)]
+#[kani::stub(alloc::fmt::format, stub_format)]
+#[kani::stub(core::slice::memchr::memchr, stub_memchr)]
+#[kani::stub(encoding_rs::Encoding::decode, stub_encoding_decode)]
+#[kani::stub(std::io::_print, stub_print)]
+#[kani::stub(alloc::vec::Vec::with_capacity, stub_with_capacity_checked)]
+fn c13_unreal2_player_count() {
+    use gamedig::protocols::types::GatherToggle;
+    use gamedig::protocols::unreal2;
+    let addr = crate::silent::any_addr_v4();
+    let (np, mp): (u32, u32) = (kani::any(), kani::any());
+    let mut e = Enc::new();
+    e.u8(0x80).u8(0).u8(0).u8(0).u8(0).le32(1);
+    e.u8(3).bytes(b"ip").u8(0);
+    e.le32(7777).le32(7778);
+    e.u8(3).bytes(b"Nm").u8(0);
+    e.u8(2).bytes(b"M").u8(0);
+    e.u8(2).bytes(b"G").u8(0);
+    e.le32(np).le32(mp);
+    world().push_data(e.v);
+    let gs = unreal2::GatheringSettings {
+        players: GatherToggle::Try,
+        mutators_and_rules: GatherToggle::Skip,
+    };
+    let r = unreal2::query(&addr, &gs, None);
+    kani::cover!(r.is_ok(), "query returned Ok");
+    core::mem::forget(r);
+}
